@@ -126,9 +126,10 @@ func (g *gen) Literal(tr *hx.TRef, label string, depth int) hx.Val {
 	case "Int64":
 		return hx.I64(rapid.SampledFrom([]int64{0, 1 << 40, -9, 9007199254740993}).Draw(t, label+"i64"))
 	case "Float":
-		return hx.F64(rapid.SampledFrom([]float64{0.5, -2.25, 1.5e10, 3, 0, 1e-3, -0.125}).Draw(t, label+"f"))
+		return hx.F64(rapid.SampledFrom([]float64{0.5, -2.25, 1.5e10, 3, 0, 1e-3, -0.125, 3.141592653589793, 0.30000000000000004, 2e-10}).Draw(t, label+"f"))
 	case "Float64":
-		return hx.F64(rapid.SampledFrom([]float64{0.1, 1e300, -2.5e-300, 12345.678, 7}).Draw(t, label+"f64"))
+		return hx.F64(rapid.SampledFrom([]float64{0.1, 1e300, -2.5e-300, 12345.678, 7, 3.141592653589793, 0.30000000000000004, 1.0000000000000002,
+			2.220446049250313e-16, 1.7976931348623157e308, 5e-324, 1e-05, 123456789012345680}).Draw(t, label+"f64"))
 	case "Boolean":
 		return hx.Bool(rapid.Bool().Draw(t, label+"b"))
 	case "ID":
@@ -266,6 +267,18 @@ func GenFull(t *rapid.T, o Opts) *hx.Schema {
 		roots = append(roots, subName)
 	}
 	g.objs = append(g.objs, roots...)
+	if explicit {
+		// ordinary object types that merely carry the conventional operation names
+		if mutName != "Mutation" && rapid.IntRange(0, 3).Draw(t, "plainMutationType") == 0 {
+			g.objs = append(g.objs, "Mutation")
+		}
+		if subName != "Subscription" && rapid.IntRange(0, 3).Draw(t, "plainSubscriptionType") == 0 {
+			g.objs = append(g.objs, "Subscription")
+		}
+		if queryName != "Query" && rapid.IntRange(0, 3).Draw(t, "plainQueryType") == 0 {
+			g.objs = append(g.objs, "Query")
+		}
+	}
 	// enums and scalars first (no dependencies); directive definitions may use them
 	for _, en := range g.enums {
 		td := &hx.TypeDef{Kind: hx.KEnum, Name: en}
